@@ -1395,3 +1395,705 @@ func (c *Ctx) textPredicateOf(fn *ssa.Function) (*textPredicate, string) {
 	}
 	return tp, ""
 }
+
+// ---------- APPEND-ALIAS ----------
+
+// RuleAppendAlias (every property about text that is carried in byte slices):
+// append(s[a:b], more...) writes `more` into the memory behind s[b:] whenever
+// s has room there - and a sub-slice of a buffer almost always has. Written in a
+// helper that "abbreviates a line for the log" (append(line[:117], "..."...)),
+// it overwrites three bytes of the caller's line, of the file contents or of
+// the scanner's buffer, at every log level, because the arguments of a log
+// call are evaluated whether or not the line is printed. The rule: the first
+// argument of an append is not a two-index sub-slice (high bound given, no
+// capacity bound) of memory the function does not own - a parameter, borrowed
+// reader memory, the bytes of a buffer, the contents read from a file - unless
+// the result replaces the very slice that was cut (the delete and truncate
+// idioms, s = append(s[:i], s[i+1:]...) and buf = append(buf[:0], ...)).
+func (c *Ctx) RuleAppendAlias() *Result {
+	res := &Result{Rule: "APPEND-ALIAS", MinInst: 0}
+	n := 0
+	for _, fn := range c.P.RepoFns {
+		if !c.liveFn(fn) || len(fn.Blocks) == 0 {
+			continue
+		}
+		var st *borrowState
+		k := 0
+		allInstrs(fn, func(in ssa.Instruction) {
+			call, ok := in.(*ssa.Call)
+			if !ok {
+				return
+			}
+			bi, isB := call.Call.Value.(*ssa.Builtin)
+			if !isB || bi.Name() != "append" || len(call.Call.Args) != 2 {
+				return
+			}
+			sl, ok := call.Call.Args[0].(*ssa.Slice)
+			if !ok || sl.High == nil || sl.Max != nil {
+				return
+			}
+			if h, ok := constInt(sl.High); ok && h == 0 {
+				return // buf[:0]: emptied for reuse
+			}
+			if _, isArr := derefType(sl.X.Type()).Underlying().(*types.Array); isArr {
+				return // a local array used as scratch space
+			}
+			if !isByteSlice(sl.X.Type()) {
+				return // a list of lines cut and extended (lines = f(lines)): the text itself is not touched
+			}
+			base := sl.X
+			n++
+			// the result replaces the slice that was cut: delete / truncate idioms
+			replaces := false
+			if more, ok := call.Call.Args[1].(*ssa.Slice); ok && more.X == base {
+				replaces = true
+			}
+			for _, r := range referrers(call) {
+				if ph, ok := r.(*ssa.Phi); ok {
+					if ssa.Value(ph) == base {
+						replaces = true
+					}
+					for _, e := range ph.Edges {
+						if e == base {
+							replaces = true
+						}
+					}
+				}
+			}
+			if replaces {
+				return
+			}
+			why := ""
+			switch x := stripConv(base).(type) {
+			case *ssa.Parameter:
+				why = "the parameter " + x.Name() + " (the caller's memory)"
+			case *ssa.Call:
+				f := staticCallee(&x.Call)
+				if isMeth(f, "bytes", "Buffer", "Bytes") {
+					why = "the bytes of a buffer"
+				}
+			case *ssa.Extract:
+				if rc, ok := x.Tuple.(*ssa.Call); ok && (isFn(staticCallee(&rc.Call), "os", "ReadFile") || isFn(staticCallee(&rc.Call), "io", "ReadAll")) {
+					why = "the contents read from a file"
+				}
+			}
+			if why == "" {
+				if st == nil {
+					st = c.borrowTaint(fn)
+				}
+				if s := st.tainted[base]; s != nil {
+					why = "memory borrowed from a reader (" + s.what + ")"
+				}
+			}
+			if why == "" {
+				return
+			}
+			k++
+			res.Instances++
+			key := fmt.Sprintf("%s:append to a sub-slice#%d", load.FnName(fn), k)
+			res.bad(key, c.P.InstrPos(call), fmt.Sprintf("append(x[:n], ...) with x %s: the appended bytes are written over x[n:] (a sub-slice keeps the capacity of what it was cut from), so text that is still in use - the rest of the line, of the file, of the reader's buffer - is overwritten; copy first (append([]byte(nil), x[:n]...)) or cut with a capacity bound (x[:n:n])", why))
+		})
+	}
+	res.Instances++
+	res.ok("repository:appends to sub-slices", "-", fmt.Sprintf("%d appends to a two-index sub-slice examined", n))
+	return res
+}
+
+// ---------- PATH-FORM ----------
+
+// RulePathForm (C05, C08, C13, C14, C15 - wherever a path is tested for lying
+// below a directory): "is this file below that directory" is asked of two path
+// strings with strings.HasPrefix or filepath.Rel, and only makes sense when
+// both are in the same form. A containment check added as hardening typically
+// resolves the candidate with filepath.EvalSymlinks and compares it with the
+// directory as configured: as soon as any component of the checkout is a
+// symbolic link (~/src -> /data/src, /tmp -> /private/tmp, a CI workspace),
+// nothing is below the directory any more, every file is refused or skipped,
+// and the command often still exits 0. The rule: in a HasPrefix / Rel
+// comparison of two paths, either both sides derive from an EvalSymlinks result
+// or neither does.
+func (c *Ctx) RulePathForm() *Result {
+	res := &Result{Rule: "PATH-FORM", MinInst: 0}
+	n := 0
+	resolved := func(v ssa.Value) bool {
+		seen := map[ssa.Value]bool{}
+		var walk func(v ssa.Value, d int) bool
+		walk = func(v ssa.Value, d int) bool {
+			if d > 8 || v == nil || seen[v] {
+				return false
+			}
+			seen[v] = true
+			switch x := v.(type) {
+			case *ssa.Extract:
+				if call, ok := x.Tuple.(*ssa.Call); ok {
+					if isFn(staticCallee(&call.Call), "path/filepath", "EvalSymlinks") {
+						return true
+					}
+					return walk(call, d+1)
+				}
+			case *ssa.Call:
+				f := staticCallee(&x.Call)
+				if isFn(f, "path/filepath", "EvalSymlinks") {
+					return true
+				}
+				if f != nil && (objPkgPath(f) == "path/filepath" || objPkgPath(f) == "path" || objPkgPath(f) == "strings") {
+					for _, a := range x.Call.Args {
+						if sl, ok := a.(*ssa.Slice); ok {
+							for _, e := range rawVariadicElems(sl) {
+								if walk(e, d+1) {
+									return true
+								}
+							}
+						}
+						if walk(a, d+1) {
+							return true
+						}
+					}
+				}
+				// a helper of the repository that returns a resolved path
+				if sf := staticFn(&x.Call); sf != nil && c.P.IsRepoFn(sf) && d < 4 {
+					found := false
+					allInstrs(sf, func(in ssa.Instruction) {
+						if r, ok := in.(*ssa.Return); ok && len(r.Results) > 0 && walk(r.Results[0], d+2) {
+							found = true
+						}
+					})
+					return found
+				}
+			case *ssa.BinOp:
+				return walk(x.X, d+1) || walk(x.Y, d+1)
+			case *ssa.Phi:
+				for _, e := range x.Edges {
+					if walk(e, d+1) {
+						return true
+					}
+				}
+			case *ssa.Convert:
+				return walk(x.X, d+1)
+			case *ssa.ChangeType:
+				return walk(x.X, d+1)
+			case *ssa.Parameter:
+				// the comparison sits in a helper: what the callers hand over
+				if pf := x.Parent(); pf != nil && d < 6 {
+					pi := paramIndex(pf, x)
+					for _, e := range c.Graph().In[pf] {
+						cc := callCommon(e.Site)
+						if cc != nil && staticFn(cc) == pf && pi >= 0 && pi < len(cc.Args) && walk(cc.Args[pi], d+2) {
+							return true
+						}
+					}
+				}
+			case *ssa.UnOp:
+				// a local variable assigned the resolved path
+				if al, ok := x.X.(*ssa.Alloc); ok {
+					for _, r := range referrers(al) {
+						if st, ok := r.(*ssa.Store); ok && st.Addr == ssa.Value(al) && walk(st.Val, d+1) {
+							return true
+						}
+					}
+				}
+			}
+			return false
+		}
+		return walk(v, 0)
+	}
+	for _, fn := range c.P.RepoFns {
+		if !c.liveFn(fn) {
+			continue
+		}
+		k := 0
+		allInstrs(fn, func(in ssa.Instruction) {
+			call, ok := in.(*ssa.Call)
+			if !ok || len(call.Call.Args) != 2 {
+				return
+			}
+			f := staticCallee(&call.Call)
+			var a, b ssa.Value
+			what := ""
+			switch {
+			case isFn(f, "strings", "HasPrefix"):
+				a, b, what = call.Call.Args[0], call.Call.Args[1], "strings.HasPrefix(path, directory)"
+			case isFn(f, "path/filepath", "Rel"):
+				a, b, what = call.Call.Args[1], call.Call.Args[0], "filepath.Rel(directory, path)"
+			default:
+				return
+			}
+			ra, rb := resolved(a), resolved(b)
+			if !ra && !rb {
+				return
+			}
+			n++
+			k++
+			res.Instances++
+			key := fmt.Sprintf("%s:containment test#%d", load.FnName(fn), k)
+			if ra != rb {
+				side := "the path"
+				other := "the directory it is compared with"
+				if rb {
+					side, other = "the directory", "the path it is compared with"
+				}
+				res.bad(key, c.P.InstrPos(call), fmt.Sprintf("%s: %s went through filepath.EvalSymlinks, %s did not: when any component of the tree is a symbolic link the two are spelled differently, nothing lies below the directory any more and every file is refused or skipped", what, side, other))
+			} else {
+				res.ok(key, c.P.InstrPos(call), "both sides of the containment test are symlink-resolved")
+			}
+		})
+	}
+	res.Instances++
+	res.ok("repository:containment tests on resolved paths", "-", fmt.Sprintf("%d found", n))
+	return res
+}
+
+// ---------- LOOP-REPLACE ----------
+
+// RuleLoopReplace (C19 "never hangs"): the clean-up loop
+//
+//	for strings.Contains(s, A) { s = strings.ReplaceAll(s, B, C) }
+//
+// ends only if every text that contains A also contains B (B is a substring of
+// A) and the replacement makes progress (C does not contain B and is shorter
+// than B). `for strings.Contains(name, "..") { name = strings.ReplaceAll(name,
+// "../", "") }` spins forever on "a..b". Decided on the constants.
+func (c *Ctx) RuleLoopReplace() *Result {
+	res := &Result{Rule: "LOOP-REPLACE", MinInst: 0}
+	n := 0
+	for _, fn := range c.P.RepoFns {
+		if !c.liveFn(fn) {
+			continue
+		}
+		for _, l := range naturalLoops(fn) {
+			iff, ok := l.header.Instrs[len(l.header.Instrs)-1].(*ssa.If)
+			if !ok {
+				continue
+			}
+			cond, _ := unwrapNot(iff.Cond)
+			test, ok := cond.(*ssa.Call)
+			if !ok || len(test.Call.Args) != 2 {
+				continue
+			}
+			tf := staticCallee(&test.Call)
+			if !(isFn(tf, "strings", "Contains") || isFn(tf, "bytes", "Contains")) {
+				continue
+			}
+			a, okA := constString(stripConv(test.Call.Args[1]))
+			ph, isPhi := test.Call.Args[0].(*ssa.Phi)
+			if !okA || !isPhi || ph.Block() != l.header {
+				continue
+			}
+			// the value carried round the loop: the result of a ReplaceAll of the same text
+			for i, e := range ph.Edges {
+				if !l.body[l.header.Preds[i]] {
+					continue
+				}
+				rep, ok := e.(*ssa.Call)
+				if !ok || len(rep.Call.Args) < 3 {
+					continue
+				}
+				rf := staticCallee(&rep.Call)
+				if !(isFn(rf, "strings", "ReplaceAll") || isFn(rf, "bytes", "ReplaceAll") || isFn(rf, "strings", "Replace") || isFn(rf, "bytes", "Replace")) || rep.Call.Args[0] != ssa.Value(ph) {
+					continue
+				}
+				b, okB := constString(stripConv(rep.Call.Args[1]))
+				cc, okC := constString(stripConv(rep.Call.Args[2]))
+				if !okB || !okC {
+					continue
+				}
+				n++
+				res.Instances++
+				key := fmt.Sprintf("%s:replace until %q is gone", load.FnName(fn), a)
+				pos := c.P.InstrPos(rep)
+				switch {
+				case !strings.Contains(a, b):
+					res.bad(key, pos, fmt.Sprintf("the loop runs while the text contains %q but each round only replaces %q: a text that contains the first and not the second (%q) is never changed and the loop does not end", a, b, a))
+				case b == "" || strings.Contains(cc, b) || len(cc) >= len(b):
+					res.bad(key, pos, fmt.Sprintf("replacing %q by %q does not shorten the text (or re-creates what it removes): the loop need not end", b, cc))
+				default:
+					res.ok(key, pos, fmt.Sprintf("every text that contains %q contains %q, and each round removes at least one occurrence and shortens the text", a, b))
+				}
+			}
+		}
+	}
+	res.Instances++
+	res.ok("repository:replace-until-gone loops", "-", fmt.Sprintf("%d found", n))
+	return res
+}
+
+// ---------- STDOUT-NONE ----------
+
+// RuleStdoutNone (C16, C11): `regex update` writes to rules files and to the
+// log, never to standard output. A generated expression printed there "so that
+// the user can paste it by hand" in front of a fatal message is exactly what
+// C16 excludes: a failed command that prints a regex. The rule: nothing
+// reachable from the entry points of the named command writes to standard
+// output (fmt.Print*, fmt.Fprint*(os.Stdout, ...), os.Stdout.Write*).
+func (c *Ctx) RuleStdoutNone(name string) *Result {
+	res := &Result{Rule: "STDOUT-NONE", MinInst: 1}
+	cmd := c.Commands().ByName[name]
+	res.Instances++
+	if cmd == nil {
+		res.undecided("cmd "+name, "-", "command not found")
+		return res
+	}
+	reach := c.Graph().Reach(c.EntryRoots(cmd))
+	isStdout := func(v ssa.Value) bool {
+		v = stripConv(v)
+		ld, ok := v.(*ssa.UnOp)
+		if !ok {
+			return false
+		}
+		g, ok := ld.X.(*ssa.Global)
+		return ok && g.Pkg != nil && g.Pkg.Pkg.Path() == "os" && g.Name() == "Stdout"
+	}
+	var fns []*ssa.Function
+	for fn := range reach {
+		if c.P.IsRepoFn(fn) {
+			fns = append(fns, fn)
+		}
+	}
+	sort.Slice(fns, func(i, j int) bool { return load.FnName(fns[i]) < load.FnName(fns[j]) })
+	n := 0
+	for _, fn := range fns {
+		allInstrs(fn, func(in ssa.Instruction) {
+			cc := callCommon(in)
+			if cc == nil {
+				return
+			}
+			f := staticCallee(cc)
+			if f == nil {
+				return
+			}
+			what := ""
+			switch {
+			case objPkgPath(f) == "fmt" && (f.Name() == "Print" || f.Name() == "Printf" || f.Name() == "Println"):
+				what = qualName(f)
+			case objPkgPath(f) == "fmt" && strings.HasPrefix(f.Name(), "Fprint") && len(cc.Args) > 0 && isStdout(cc.Args[0]):
+				what = qualName(f) + "(os.Stdout, ...)"
+			case recvNamed(f) == "File" && objPkgPath(f) == "os" && strings.HasPrefix(f.Name(), "Write") && len(cc.Args) > 1 && isStdout(cc.Args[0]):
+				what = "os.Stdout." + f.Name()
+			default:
+				return
+			}
+			n++
+			res.Instances++
+			res.bad(load.FnName(fn)+":"+what, c.P.InstrPos(in), fmt.Sprintf("%s is reachable from %s (%s): the command's results are the rules files and its exit status, anything it prints on standard output - a generated expression in front of a failure message - is output of a command that may have failed", what, name, PathTo(reach, fn)))
+		})
+	}
+	res.ok("cmd "+name+":standard output", c.P.FnPos(cmd.In), fmt.Sprintf("%d functions reachable, %d writes to standard output", len(fns), n))
+	return res
+}
+
+// ---------- OPERAND-VERBATIM ----------
+
+// RuleOperandVerbatim (C12, C11): what update writes between the quotes is
+// what generate prints - the string returned by Operator.Run, byte for byte.
+// The new operand that update concatenates into the rule line is followed
+// backwards through parameters and phis to the call that assembled it; any
+// other call on the way (a helper that "escapes bare quotes", a strings.*
+// clean-up, a trim) makes the stored operand differ from generate's output and
+// compare report a change right after a successful update.
+func (c *Ctx) RuleOperandVerbatim() *Result {
+	res := &Result{Rule: "OPERAND-VERBATIM", MinInst: 0}
+	res.Instances++
+	res.ok("cmd update:operand written", "-", "scanned")
+	opPkg := load.ModulePath + "/regex/operators"
+	// functions whose text result is Operator.Run's result, handed on unchanged
+	assembles := map[*ssa.Function]bool{}
+	var isAssembled func(v ssa.Value, d int) bool
+	isAssembled = func(v ssa.Value, d int) bool {
+		if d > 6 {
+			return false
+		}
+		switch x := stripConv(v).(type) {
+		case *ssa.Extract:
+			if call, ok := x.Tuple.(*ssa.Call); ok && x.Index == 0 {
+				if isMeth(staticCallee(&call.Call), opPkg, "Operator", "Run") {
+					return true
+				}
+				if sf := staticFn(&call.Call); sf != nil && assembles[sf] {
+					return true
+				}
+			}
+		case *ssa.Call:
+			if sf := staticFn(&x.Call); sf != nil && assembles[sf] {
+				return true
+			}
+		case *ssa.Phi:
+			for _, e := range x.Edges {
+				if !isAssembled(e, d+1) {
+					return false
+				}
+			}
+			return len(x.Edges) > 0
+		}
+		return false
+	}
+	for round := 0; round < 3; round++ {
+		for _, fn := range c.P.RepoFns {
+			if assembles[fn] || len(fn.Blocks) == 0 || fn.Signature.Results().Len() == 0 || !isStringType(fn.Signature.Results().At(0).Type()) {
+				continue
+			}
+			all, any := true, false
+			allInstrs(fn, func(in ssa.Instruction) {
+				if r, ok := in.(*ssa.Return); ok && len(r.Results) > 0 {
+					if c.Loud().BlockDies(r.Block()) {
+						return
+					}
+					// a failing return hands back no expression
+					if op := retErrOperand(r); op != nil && len(r.Results) > 1 && (errOperandAlwaysNonNil(op) || domFacts(r.Block())[op] == nonNil || c.factsNonNil(r.Block(), op)) {
+						return
+					}
+					any = true
+					if !isAssembled(r.Results[0], 0) {
+						all = false
+					}
+				}
+			})
+			if all && any {
+				assembles[fn] = true
+			}
+		}
+	}
+	upd := c.cmdFns("update")
+	for _, s := range c.submatchSites() {
+		if s.pattern == nil || s.pattern.Name != "regex.RuleRxRegex" || !upd[load.FnName(s.fn)] {
+			continue
+		}
+		fn := s.fn
+		// the parameter that is concatenated with the captured groups
+		var operand *ssa.Parameter
+		allInstrs(fn, func(in ssa.Instruction) {
+			b, ok := in.(*ssa.BinOp)
+			if !ok || b.Op != token.ADD {
+				return
+			}
+			for _, op := range stringOperands(b, 0) {
+				if p, ok := stripConv(op).(*ssa.Parameter); ok && isStringType(p.Type()) {
+					operand = p
+				}
+			}
+		})
+		if operand == nil {
+			for _, p := range fn.Params {
+				for _, r := range referrers(p) {
+					if call, ok := r.(*ssa.Call); ok {
+						if bi, ok := call.Call.Value.(*ssa.Builtin); ok && bi.Name() == "append" && isStringType(p.Type()) {
+							operand = p
+						}
+					}
+				}
+			}
+		}
+		if operand == nil {
+			continue
+		}
+		res.Instances++
+		key := load.FnName(fn) + ":the operand that is written"
+		var problems []string
+		seen := map[ssa.Value]bool{}
+		var back func(v ssa.Value, in *ssa.Function, d int)
+		back = func(v ssa.Value, in *ssa.Function, d int) {
+			v = stripConv(v)
+			if d > 6 || seen[v] {
+				return
+			}
+			seen[v] = true
+			if isAssembled(v, 0) {
+				return
+			}
+			switch x := v.(type) {
+			case *ssa.Parameter:
+				pi := paramIndex(in, x)
+				n := 0
+				for _, e := range c.Graph().In[in] {
+					cc := callCommon(e.Site)
+					if cc == nil || staticFn(cc) != in || pi < 0 || pi >= len(cc.Args) || !c.liveFn(e.Caller) {
+						continue
+					}
+					n++
+					back(cc.Args[pi], e.Caller, d+1)
+				}
+				if n == 0 {
+					problems = append(problems, "the operand arrives in parameter "+x.Name()+" of "+load.FnName(in)+", which nothing calls statically")
+				}
+			case *ssa.Phi:
+				for _, e := range x.Edges {
+					back(e, in, d+1)
+				}
+			case *ssa.Call:
+				problems = append(problems, fmt.Sprintf("the operand passes through %s at %s before it is written", calleeLabel(&x.Call), c.P.InstrPos(x)))
+			case *ssa.Extract:
+				if call, ok := x.Tuple.(*ssa.Call); ok {
+					problems = append(problems, fmt.Sprintf("the operand passes through %s at %s before it is written", calleeLabel(&call.Call), c.P.InstrPos(call)))
+				}
+			case *ssa.BinOp:
+				problems = append(problems, "the operand is put together at "+c.P.InstrPos(x)+" instead of being the assembled expression itself")
+			default:
+				problems = append(problems, fmt.Sprintf("the origin of the operand is not followed (%T)", v))
+			}
+		}
+		back(operand, fn, 0)
+		if len(problems) > 0 {
+			res.bad(key, c.P.FnPos(fn), strings.Join(uniq(problems), "; ")+": what update stores is no longer byte for byte what generate prints for the same file, so compare reports a change right after a successful update")
+		} else {
+			res.ok(key, c.P.FnPos(fn), "the operand concatenated into the rule line is the string returned by Operator.Run, handed through parameters only")
+		}
+	}
+	return res
+}
+
+// ---------- WALK-STOP ----------
+
+// RuleWalkStop (C08, C11, C16): a directory walk ends at the first non-nil
+// error its callback returns. An error value that the caller of the walk then
+// forgives - `if err != nil && !errors.Is(err, errRuleUpToDate)` - must
+// therefore never be what the callback returns: "this rule is already up to
+// date" returned from the callback ends the --all run at that rule with exit
+// status 0 and leaves every later rule untouched. The rule: for every sentinel
+// S that the result of filepath.WalkDir / Walk is compared with (errors.Is or
+// ==), S cannot be among the values the callback returns (followed through the
+// functions of the repository whose result it returns).
+func (c *Ctx) RuleWalkStop() *Result {
+	res := &Result{Rule: "WALK-STOP", MinInst: 0}
+	n := 0
+	var canReturn func(fn *ssa.Function, g *ssa.Global, d int, seen map[*ssa.Function]bool) string
+	canReturn = func(fn *ssa.Function, g *ssa.Global, d int, seen map[*ssa.Function]bool) string {
+		if fn == nil || d > 5 || seen[fn] || len(fn.Blocks) == 0 {
+			return ""
+		}
+		seen[fn] = true
+		why := ""
+		var valueIs func(v ssa.Value, k int) string
+		valueIs = func(v ssa.Value, k int) string {
+			if k > 6 {
+				return ""
+			}
+			switch x := stripConv(v).(type) {
+			case *ssa.UnOp:
+				if x.Op == token.MUL && x.X == ssa.Value(g) {
+					return "returned at " + c.P.InstrPos(x)
+				}
+			case *ssa.Phi:
+				for _, e := range x.Edges {
+					if w := valueIs(e, k+1); w != "" {
+						return w
+					}
+				}
+			case *ssa.Call:
+				if isFn(staticCallee(&x.Call), "fmt", "Errorf") && len(x.Call.Args) > 1 {
+					if sl, ok := x.Call.Args[1].(*ssa.Slice); ok {
+						for _, e := range rawVariadicElems(sl) {
+							if w := valueIs(stripErrConv(e), k+1); w != "" {
+								return w + " (wrapped)"
+							}
+						}
+					}
+				}
+				if sf := staticFn(&x.Call); sf != nil && c.P.IsRepoFn(sf) {
+					if w := canReturn(sf, g, d+1, seen); w != "" {
+						return "through " + load.FnName(sf) + ", " + w
+					}
+				}
+			case *ssa.Extract:
+				if call, ok := x.Tuple.(*ssa.Call); ok {
+					if sf := staticFn(&call.Call); sf != nil && c.P.IsRepoFn(sf) && isErrorType(x.Type()) {
+						if w := canReturn(sf, g, d+1, seen); w != "" {
+							return "through " + load.FnName(sf) + ", " + w
+						}
+					}
+				}
+			}
+			return ""
+		}
+		allInstrs(fn, func(in ssa.Instruction) {
+			if r, ok := in.(*ssa.Return); ok && why == "" {
+				if op := retErrOperand(r); op != nil {
+					why = valueIs(op, 0)
+				}
+			}
+		})
+		return why
+	}
+	for _, fn := range c.P.RepoFns {
+		if !c.liveFn(fn) {
+			continue
+		}
+		allInstrs(fn, func(in ssa.Instruction) {
+			call, ok := in.(*ssa.Call)
+			if !ok {
+				return
+			}
+			f := staticCallee(&call.Call)
+			if !(isFn(f, "path/filepath", "WalkDir") || isFn(f, "path/filepath", "Walk")) || len(call.Call.Args) < 2 {
+				return
+			}
+			cbs := fnValuesIn(call.Call.Args[1], 3)
+			if len(cbs) == 0 {
+				return
+			}
+			// the values the walk's result is compared with
+			seenVals := map[ssa.Value]bool{}
+			var sentinels []*ssa.Global
+			var follow func(v ssa.Value, d int)
+			follow = func(v ssa.Value, d int) {
+				if d > 4 || seenVals[v] {
+					return
+				}
+				seenVals[v] = true
+				for _, r := range referrers(v) {
+					switch x := r.(type) {
+					case *ssa.Phi:
+						follow(x, d+1)
+					case *ssa.Store:
+						if al, ok := x.Addr.(*ssa.Alloc); ok && x.Val == v {
+							for _, rr := range referrers(al) {
+								if ld, ok := rr.(*ssa.UnOp); ok && ld.Op == token.MUL {
+									follow(ld, d+1)
+								}
+							}
+						}
+					case *ssa.Call:
+						if isFn(staticCallee(&x.Call), "errors", "Is") && len(x.Call.Args) == 2 && x.Call.Args[0] == v {
+							if ld, ok := stripConv(x.Call.Args[1]).(*ssa.UnOp); ok {
+								if g, ok := ld.X.(*ssa.Global); ok {
+									sentinels = append(sentinels, g)
+								}
+							}
+						}
+					case *ssa.BinOp:
+						if x.Op == token.EQL || x.Op == token.NEQ {
+							for _, side := range []ssa.Value{x.X, x.Y} {
+								if ld, ok := stripConv(side).(*ssa.UnOp); ok && side != v {
+									if g, ok := ld.X.(*ssa.Global); ok && isErrorType(derefType(g.Type())) {
+										sentinels = append(sentinels, g)
+									}
+								}
+							}
+						}
+					}
+				}
+			}
+			follow(call, 0)
+			for _, g := range sentinels {
+				if g.Pkg == nil || !strings.HasPrefix(g.Pkg.Pkg.Path(), load.ModulePath) {
+					continue // fs.SkipAll and friends are the walk's own protocol
+				}
+				n++
+				res.Instances++
+				key := fmt.Sprintf("%s:walk result compared with %s", load.FnName(fn), g.Name())
+				why := ""
+				for _, cb := range cbs {
+					if w := canReturn(unwrapBound(cb), g, 0, map[*ssa.Function]bool{}); w != "" {
+						why = w
+					}
+				}
+				if why != "" {
+					res.bad(key, c.P.InstrPos(call), fmt.Sprintf("%s is treated specially in the result of the walk, and the callback can return it (%s): the walk ends at the first entry that yields it, every later entry is left unprocessed, and the caller does not count that as a failure", g.Name(), why))
+				} else {
+					res.ok(key, c.P.InstrPos(call), "the callback cannot return the value the result is compared with")
+				}
+			}
+		})
+	}
+	res.Instances++
+	res.ok("repository:walk results compared with a sentinel of the repository", "-", fmt.Sprintf("%d found", n))
+	return res
+}
